@@ -84,6 +84,7 @@ class Agg:
         self.samples += o.samples
         self.violations += o.violations
         self.errors += o.errors
+        self.extra.update(o.extra)
 
 
 _PROP = None
@@ -121,7 +122,25 @@ def _work(args):
                     agg.errors.append((i, "minimisation failed: %r" % (e,)))
                 agg.violations.append((i, res["case"], res["violation"], mcase, mviol))
             else:
-                agg.extra["violations_not_kept"] += 1
+                # beyond the per-worker minimisation budget: a cheap match of the unminimised case decides whether this is one
+                # more instance of an open finding (counted) or something that must still be minimised and reported
+                from . import findings as _f
+                fid = None
+                try:
+                    fid = _f.match(prop_id, res["case"], res["violation"])
+                except Exception:   # pylint: disable=broad-except
+                    fid = None
+                if fid is None and agg.extra["unmatched_kept"] < 24:
+                    agg.extra["unmatched_kept"] += 1
+                    try:
+                        mcase, mviol, _ = _minimise_job((prop_id, res["case"], res["violation"]))
+                    except Exception as e:   # pylint: disable=broad-except
+                        mcase, mviol = res["case"], res["violation"]
+                    agg.violations.append((i, res["case"], res["violation"], mcase, mviol))
+                else:
+                    agg.extra["violations_not_kept"] += 1
+                    if fid:
+                        agg.extra["known_unminimised:" + fid] += 1
         i += stride
         n += 1
     return agg
@@ -373,7 +392,7 @@ def main(prop_id, tier, seed, runs=None, jobs=None, wall=None):
     budget_each = 8
     if viols:
         if True:
-            for idx, case, viol, mcase, mviol in viols[:budget_each * 4]:
+            for idx, case, viol, mcase, mviol in viols:
                 if mviol is None:
                     print("HARNESS-NONDETERMINISM property=%s run=%d: violation %s did not reproduce on replay" % (prop_id, idx, viol["cls"]))
                     path = write_replay(prop_id, seed, idx, case, viol, {"note": "did not reproduce"})
@@ -448,6 +467,7 @@ def main(prop_id, tier, seed, runs=None, jobs=None, wall=None):
             "distinct_state_fingerprints": len(agg.fingerprints),
             "max_rounds_to_quiet": agg.max_rounds,
             "known_finding_hits": dict(known_tally), "known_finding_rate_guard": rate_info,
+            "known_finding_hits_unminimised": {k.split(":", 1)[1]: v for k, v in agg.extra.items() if k.startswith("known_unminimised:")},
             "workers": jobs, "hashseed": os.environ.get("PYTHONHASHSEED"),
             "real_components": getattr(prop, "REAL", []),
             "stubbed_components": getattr(prop, "STUBS", []),
